@@ -3,6 +3,8 @@ CONSTANTS
   Repaired = FALSE
   MaxStyles = 3
   UseAligns = TRUE
+  RComps <- Components
+  RIOs <- IOsAll
   Depth = 3
   OwnFields <- MCOwn
   BorderFields <- MCBorder
